@@ -660,7 +660,7 @@ def run_case(case):
     allv, sols = S[key]
     full = stmts + inline
     solset = set(sols)
-    sel = case["sel"]
+    sel = list(case.get("sel") or [0]) * 8          # (the structural reducer may have shortened the list)
     probes = []
     for i in range(min(2, len(sols))):
         probes.append((sols[sel[i] % len(sols)], True, "member"))
